@@ -12,7 +12,8 @@
     toData_sem / toData_sem_idx          to_data for ANY injective name_to_dim: shape and value at every index
     roundtrip_sem                        pointwise round trip as a corollary of toFunsor_sem + toData_sem
     toFunsor_toData_roundtrip            to_funsor(to_data(x, name_to_dim), output, inverse) = x pointwise, any injective map
-    perm_eq_inverse_iff_involution       permutation vs inverse agree iff involution; 3-cycle witness
+    perm_eq_inverse_iff_involution       permutation vs inverse agree iff involution; 3-cycle witnesses
+    permute_inverse_ne_3cycle            (gather level and array level: same shape, different data)
     align_sem                            Tensor.align: inputs order, sizes, value at every point
     alignTensor_sem                      align_tensor (permute, un-squeeze, expand): value at every point
     alignTensors_sem / binaryT_sem       align_tensors: union order, per-tensor value, broadcast shape; eager binary op
@@ -2322,6 +2323,24 @@ theorem perm_vs_inverse_3cycle :
     IsPermP [1, 2, 0] 3 ∧ invPerm [1, 2, 0] = [2, 0, 1] ∧
     gather [10, 20, 30] [1, 2, 0] ≠ gather [10, 20, 30] (invPerm [1, 2, 0]) := by
   refine ⟨⟨rfl, by decide, by decide, by decide⟩, by decide, by decide⟩
+
+/-- **permute_inverse_ne_3cycle.**  At the array level: transposing a 2×2×2 array of distinct
+    entries with the 3-cycle `[1,2,0]` and with its inverse `[2,0,1]` gives the same SHAPE (equal
+    sizes: no shape error to reveal the mistake) but different data — the signature of every
+    "target position vs source axis" mix-up (`new.index(k) for k in old` vs `old.index(k) for k in
+    new`).  Swaps and reversals are involutions and cannot show it. -/
+def exCube : Arr Nat := ⟨[2, 2, 2], fun idx => ravel [2, 2, 2] idx⟩
+
+def shapeFlat (r : Except Err (Arr Nat)) : List Nat × List Nat :=
+  match r with
+  | .ok p => (p.shape, p.toFlat)
+  | .error _ => ([], [])
+
+theorem permute_inverse_ne_3cycle :
+    (shapeFlat (permute exCube [1, 2, 0])).1 = (shapeFlat (permute exCube (invPerm [1, 2, 0]))).1 ∧
+    (shapeFlat (permute exCube [1, 2, 0])).2 ≠ (shapeFlat (permute exCube (invPerm [1, 2, 0]))).2 ∧
+    (shapeFlat (permute exCube [1, 2, 0])).2 = [0, 4, 1, 5, 2, 6, 3, 7] ∧
+    shapeFlat (permute exCube [1, 0, 2]) = shapeFlat (permute exCube (invPerm [1, 0, 2])) := by decide
 
 /-- Below three axes every permutation is an involution: tests with ≤ 2 named dims cannot tell
     a permutation from its inverse. -/
